@@ -14,6 +14,10 @@ sys.path.insert(0, os.path.dirname(os.path.dirname(os.path.abspath(__file__))))
 
 from harness import common  # noqa: E402
 
+import logging  # noqa: E402
+
+logging.disable(logging.CRITICAL)
+
 
 def main():
     ap = argparse.ArgumentParser()
